@@ -20,12 +20,12 @@ def runs(tier):
                 MaxDepth=1, EmitAll=False, Vias={'matmul'}, QL=1, OWs={False, True}, Lean=True, IslLevel=1 if q else 2)
     out = []
     out.append(dict(name='gen', constants=dict(base, Scenarios={'single'}, Ops={'Svd', 'Pinv'},
-                                               KindPairs={('real', 'real'), ('complex', 'complex'), ('def', 'def'), ('cdef', 'cdef')})))
+                                               KindPairs={('real', 'real'), ('complex', 'complex'), ('def', 'def'), ('cdef', 'cdef'), ('mixedL', 'mixedL')})))
     out.append(dict(name='isl', nshards=8, constants=dict(base, MaxD=4, Scenarios={'odeco'}, Ops={'Svd', 'Pinv', 'SvdOpt', 'PinvThr'},
                                                           KindPairs={('real', 'real')})))
     out.append(dict(name='flags', constants=dict(base, MaxD=3, RanksS={2}, Scenarios={'single'}, MaxDepth=2,
                                                  OpsAt=[{'OrthoLeft', 'OrthoRight', 'Ortho'}, {'SvdOpt', 'Svd'}],
-                                                 KindPairs={('complex', 'complex')})))
+                                                 KindPairs={('mixed1', 'mixed1')} if q else {('complex', 'complex'), ('mixedL', 'mixedL')})))
     return out
 
 
